@@ -39,6 +39,12 @@ def pObs : P (Option Bytes) := do
   let k ← tok
   if k == "R" then some <$> str else if k == "P" then pure none else failure
 
+/-- does the address lie inside a trusted CIDR, according to the case's `net` table -/
+def tblTrusted (tbl : Table) (res : Bytes) : Bool :=
+  tbl.any fun e => match e.2 with
+    | some (ip, t) => ip == res && t
+    | none => false
+
 def step (line : String) : String :=
   match splitCase line with
   | none => "? bad-line"
@@ -54,9 +60,11 @@ def step (line : String) : String :=
         let m := clientIP q
         let mi := o == some m
         let s := match o with
-          | some res => specOK q res
+          | some res => specOK q res && strictOK q (tblTrusted r.tbl res)
           | none => false
-        verdict id mi s "-" ("R " ++ encStr m)
+        -- known-finding class, stated on the input: K18c (a header in front of X-Forwarded-For shadows it)
+        let d := if shadowed q then "xff-shadowed" else "-"
+        verdict id mi s d ("R " ++ encStr m)
     | _, _ => s!"{id} bad-case"
 
 end Rivaas.DriverC18
